@@ -58,7 +58,7 @@ const (
 )
 
 // runConstsCase: the exported names carry the kernel's numbers.
-func runConstsCase(ctx *Ctx, c CCase, idx int) *common.Violation {
+func runConstsCase(ctx *Ctx, c KCase, idx int) *common.Violation {
 	ctx.Res.Count(c.canon(), true)
 	ctx.Res.Hist("consts")
 	type kv struct {
@@ -223,7 +223,7 @@ func checkSent(op string, got []simkernel.Sent, want []sentExpect) string {
 
 // historyMonitor evaluates the clauses of C08, C16, C17 and C18 (Receive over the
 // simulator) on one history. It returns the first failed clause.
-func historyMonitor(c CCase, run *clientRun) string {
+func historyMonitor(c KCase, run *clientRun) string {
 	var pending []uint32 // NoWait requests whose ACK has not been consumed, per the property
 	pendingKnown := true
 	setPIDUsed := false
@@ -601,7 +601,7 @@ func historyMonitor(c CCase, run *clientRun) string {
 }
 
 // historyNontrivial tags what a history exercises.
-func historyNontrivial(c CCase, run *clientRun) (bool, []string) {
+func historyNontrivial(c KCase, run *clientRun) (bool, []string) {
 	tags := map[string]bool{}
 	waits, closes := 0, 0
 	hadNoWait := false
